@@ -284,7 +284,9 @@ def run_history(otype, config, ops):
                 _, why, pid, plain, index = op
                 if why == "bad-index" and (pid not in model or not isinstance(model[pid], dict) or 0 <= index <= len(model[pid]["list"])):
                     continue                       # the array has grown meanwhile: the index is valid now
-                if why in ("wrong-type", "read-only") and pid not in model:
+                if why in ("wrong-type", "read-only", "extra-component") and pid not in model:
+                    continue
+                if why == "extra-component" and index is not None and (not isinstance(model[pid], dict) or not (1 <= index <= len(model[pid]["list"]))):
                     continue
                 before = snapshot()
                 stats["refused"] += 1
@@ -294,7 +296,7 @@ def run_history(otype, config, ops):
                 else:
                     req = A.WritePropertyRequest(objectIdentifier=oid, propertyIdentifier=pid)
                     want = {"unknown-property": [("error", "property", "unknownProperty")], "read-only": [("error", "property", "writeAccessDenied")],
-                            "bad-index": [("error", "property", "invalidArrayIndex")], "wrong-type": WRONG_TYPE_OK}[why]
+                            "bad-index": [("error", "property", "invalidArrayIndex")], "wrong-type": WRONG_TYPE_OK, "extra-component": WRONG_TYPE_OK}[why]
                 P = V.lib().P
                 if why == "wrong-type":
                     lv = plain_wrong(pmap[pid][0])
@@ -312,6 +314,11 @@ def run_history(otype, config, ops):
                     lv = P.Unsigned(1)
                 req.propertyValue = L.Any()
                 req.propertyValue.cast_in(lv)
+                if why == "extra-component":
+                    # a second value of the same kind behind the first: two values are not one value of an atomic datatype
+                    extra = L.Any()
+                    extra.cast_in(lv)
+                    req.propertyValue.tagList.extend(extra.tagList)
                 if index is not None:
                     req.propertyArrayIndex = index
                 r = call(req)
@@ -506,7 +513,13 @@ def history_strategy(otype, focus=None):
             alts.append(st.sampled_from(wr).flatmap(wp))
             alts.append(st.sampled_from(wr).map(lambda pid: ["wp-bad", "wrong-type", pid, None, None]))
             alts.append(st.sampled_from(wr).flatmap(lambda pid: V.strategy(dts[pid], 1).map(lambda v, pid=pid: ["wp-bad", "unknown-object", pid, v, None])))
+        watom = [p for p in wr if V.atomic_kind(dts[p]) is not None]
+        if watom:
+            alts.append(st.sampled_from(watom).flatmap(lambda pid: V.strategy(dts[pid], 1).map(lambda v, pid=pid: ["wp-bad", "extra-component", pid, v, None])))
         warr = [p for p in wr if p in arrays and cfg[p][1]["list"]]
+        wea = [p for p in warr if V.atomic_kind(dts[p].subtype) is not None]
+        if wea:
+            alts.append(st.sampled_from(wea).flatmap(lambda pid: V.strategy(dts[pid].subtype, 1).map(lambda v, pid=pid: ["wp-bad", "extra-component", pid, v, 1])))
         if warr:
             def wpe(pid):
                 n = len(cfg[pid][1]["list"])
